@@ -427,14 +427,18 @@ def optimize_log_lbfgsb(p0, data, model_func, pts,
     if lower_bound is None:
         lower_bound = [None] * len(p0)
     else:
-        lower_bound = numpy.log(lower_bound)
-        lower_bound[numpy.isnan(lower_bound)] = None
+        # None (and bounds whose log is undefined) mean unbounded.
+        lower_bound = [None if bnd is None else numpy.log(bnd) for bnd in lower_bound]
+        lower_bound = [None if (bnd is not None and numpy.isnan(bnd)) else bnd
+                       for bnd in lower_bound]
     lower_bound = _project_params_down(lower_bound, fixed_params)
     if upper_bound is None:
         upper_bound = [None] * len(p0)
     else:
-        upper_bound = numpy.log(upper_bound)
-        upper_bound[numpy.isnan(upper_bound)] = None
+        # None (and bounds whose log is undefined) mean unbounded.
+        upper_bound = [None if bnd is None else numpy.log(bnd) for bnd in upper_bound]
+        upper_bound = [None if (bnd is not None and numpy.isnan(bnd)) else bnd
+                       for bnd in upper_bound]
     upper_bound = _project_params_down(upper_bound, fixed_params)
     bounds = list(zip(lower_bound,upper_bound))
 
